@@ -107,3 +107,92 @@ def world(job):
     finally:
         dpath.unlink()
         ppath.unlink()
+
+
+# ---------------------------------------------------------------------------------------------------------------
+# shipped fixtures: a domain/problem pair of the repository's own test data
+def fixture(job):
+    """job: domain, problem (paths relative to <repo>/tests), seed, ncalls (per action), nstates, want ('ground'|'app'|'both')"""
+    import random
+    import pddl_plus_parser
+    from pddl_plus_parser.models import State
+    from ops_core import read_state_text
+    tests = Path(pddl_plus_parser.__file__).resolve().parent.parent / "tests"
+    dpath, ppath = tests / job["domain"], tests / job["problem"]
+    dtext = dpath.read_text()
+    out = {"domain_text": dtext, "nums": number_table(dtext)}
+    try:
+        domain = DomainParser(dpath).parse_domain()
+        out["vocab"] = vocab(domain)
+        problem = ProblemParser(ppath, domain).parse_problem()
+    except Exception as e:  # noqa
+        out["parse_raised"] = exc(e)
+        return out
+    out["objects"] = [[n, o.type.name] for n, o in problem.objects.items()]
+    universe = list(problem.objects.items()) + list(domain.constants.items())
+    rng = random.Random(job["seed"])
+
+    def fresh():
+        return State({k: {p.copy() for p in v} for k, v in problem.initial_state_predicates.items()},
+                     {k: v.copy() for k, v in problem.initial_state_fluents.items()}, is_init=True)
+    states = [fresh()]
+    for _ in range(max(0, job.get("nstates", 1) - 1)):
+        st = fresh()
+        for k in list(st.state_predicates):
+            st.state_predicates[k] = {p for p in st.state_predicates[k] if rng.random() > 0.25}
+        for f in st.state_fluents.values():
+            if rng.random() < 0.5:
+                f.set_value(rng.choice([0.0, 1.0, 2.0, 5.0, 10.0, 0.5]))
+        states.append(st)
+    out["states"] = [read_state_text(s.serialize()) for s in states]
+    probes = []
+    want = job.get("want", "both")
+    for an, action in domain.actions.items():
+        pools = [[n for n, o in universe if o.type.is_sub_type(pt)] for pt in action.signature.values()]
+        if not all(pools) and pools:
+            continue
+        total = 1
+        for p in pools:
+            total *= len(p)
+        if total <= 2000:
+            import itertools
+            tuples = [list(t) for t in itertools.product(*pools)]
+            rng.shuffle(tuples)
+        else:
+            tuples = [[rng.choice(p) for p in pools] for _ in range(400)]
+        chosen, n_true = [], 0
+        if job.get("calls") is not None:
+            chosen = [c["args"] for c in job["calls"] if c["action"] == an]
+            tuples = []
+        for t in tuples:
+            if n_true >= max(1, job.get("ncalls", 0) // 2):
+                break
+            try:
+                if Operator(action, domain, t, problem.objects).is_applicable(states[0]):
+                    chosen.append(t)
+                    n_true += 1
+            except Exception:  # noqa
+                pass
+        for t in tuples:
+            if len(chosen) >= job.get("ncalls", 0):
+                break
+            if t not in chosen:
+                chosen.append(t)
+        for t in chosen:
+            pr = {"action": an, "args": t}
+            if want in ("ground", "both"):
+                try:
+                    pr["obs"] = {"value": observe(domain, action, t, problem.objects)}
+                except Exception as e:  # noqa
+                    pr["obs"] = exc(e)
+            if want in ("app", "both"):
+                apps = []
+                for st in states:
+                    try:
+                        apps.append({"value": bool(Operator(action, domain, t, problem.objects).is_applicable(st))})
+                    except Exception as e:  # noqa
+                        apps.append(exc(e))
+                pr["apps"] = apps
+            probes.append(pr)
+    out["probes"] = probes
+    return out
